@@ -1,8 +1,13 @@
 #!/bin/bash
-# usage: run_seed.sh <seed dir> <property ids...> : applies the seed to /repo, runs the checks, reverts.
-d=$1; shift
-if [ -n "$(git -C /repo status --porcelain)" ]; then echo "/repo not clean; refusing"; exit 2; fi
-git -C /repo apply $(realpath $d)/patch.diff || exit 2
-for id in "$@"; do /verif/bin/govc check $id; echo "rc[$id]=$?"; done
-git -C /repo checkout -- . 
-git -C /repo status --porcelain
+# usage: run_seed.sh <seed dir> <property ids...>
+# Applies the seed to a scratch worktree of /repo's HEAD (so that checks running against /repo itself are not disturbed),
+# runs the checks against it (VERIF_REPO), removes the worktree.  Evidence written by these runs goes to a scratch root.
+d=$(realpath $1); shift
+wt=/tmp/rs-$(basename $d)-$$
+root=/tmp/rsroot-$(basename $d)-$$
+git -C /repo worktree add -q --detach $wt HEAD || exit 2
+git -C $wt apply $d/patch.diff || { git -C /repo worktree remove --force $wt; exit 2; }
+mkdir -p $root; for f in stubs claims.json known_findings.json replay selftest lemmas properties.jsonl; do ln -s /verif/$f $root/$f; done
+mkdir -p $root/evidence $root/replays
+for id in "$@"; do VERIF_REPO=$wt VERIF_ROOT=$root /verif/bin/govc check $id; echo "rc[$id]=$?"; done
+cd /; git -C /repo worktree remove --force $wt; rm -rf $root
